@@ -1608,6 +1608,11 @@ func (interp *Interpreter) cfg(root *node, sc *scope, importPath, pkgName string
 			cond.tnext = body.start
 			setFNext(cond, n)
 			body.tnext = post.start
+			if body.child[0].ident != "_" {
+				// The body works on a per-iteration copy of the loop variable: carry
+				// its value to the next iteration before the post statement.
+				body.gen = loopVarForNext
+			}
 			sc = sc.pop()
 
 		case forRangeStmt:
